@@ -32,6 +32,7 @@ from octave_mcp.core.ast_nodes import (
     Section,
 )
 from octave_mcp.core.emitter import emit
+from octave_mcp.core.file_ops import exclusive_directory_lock
 from octave_mcp.core.gbnf_compiler import GBNFCompiler
 from octave_mcp.core.hydrator import resolve_hermetic_standard
 from octave_mcp.core.lexer import LexerError, tokenize
@@ -1654,26 +1655,30 @@ class WriteTool(BaseTool):
                     f.flush()
                     os.fsync(f.fileno())
 
-                # TOCTOU protection: recheck base_hash before replace
-                if base_hash and file_exists:
-                    with open(target_path, encoding="utf-8") as verify_f:
-                        verify_content = verify_f.read()
-                    verify_hash = self._compute_hash(verify_content)
-                    if verify_hash != base_hash:
-                        os.unlink(temp_path)
-                        return self._error_envelope(
-                            target_path,
-                            [
-                                {
-                                    "code": "E_HASH",
-                                    "message": f"Hash mismatch before write - file was modified during operation (expected {base_hash[:8]}..., got {verify_hash[:8]}...)",
-                                }
-                            ],
-                            result["corrections"],
-                        )
+                # Re-check and replace under a directory lock so that no other
+                # writer can install between the two (compare-and-swap).
+                with exclusive_directory_lock(path_obj.parent):
+                    # TOCTOU protection: recheck base_hash before replace.
+                    # Also covers a file that another writer created since entry.
+                    if base_hash and (file_exists or path_obj.exists()):
+                        with open(target_path, encoding="utf-8") as verify_f:
+                            verify_content = verify_f.read()
+                        verify_hash = self._compute_hash(verify_content)
+                        if verify_hash != base_hash:
+                            os.unlink(temp_path)
+                            return self._error_envelope(
+                                target_path,
+                                [
+                                    {
+                                        "code": "E_HASH",
+                                        "message": f"Hash mismatch before write - file was modified during operation (expected {base_hash[:8]}..., got {verify_hash[:8]}...)",
+                                    }
+                                ],
+                                result["corrections"],
+                            )
 
-                # Atomic replace
-                os.replace(temp_path, target_path)
+                    # Atomic replace
+                    os.replace(temp_path, target_path)
 
             except Exception:
                 # Best-effort cleanup that does not depend on a successful stat():
